@@ -108,12 +108,18 @@ func (f *Font) nominalGlyph(r rune, notFound GID) (GID, bool) {
 
 // ---- Convert from font-space to user-space ----
 
-func (f *Font) emScaleX(v int16) Position    { return Position(v) * f.XScale / f.faceUpem }
-func (f *Font) emScaleY(v int16) Position    { return Position(v) * f.YScale / f.faceUpem }
+func (f *Font) emScaleX(v int16) Position    { return emScale(v, f.XScale, f.faceUpem) }
+func (f *Font) emScaleY(v int16) Position    { return emScale(v, f.YScale, f.faceUpem) }
 func (f *Font) emScalefX(v float32) Position { return emScalef(v, f.XScale, f.faceUpem) }
 func (f *Font) emScalefY(v float32) Position { return emScalef(v, f.YScale, f.faceUpem) }
 func (f *Font) emFscaleX(v int16) float32    { return emFscale(v, f.XScale, f.faceUpem) }
 func (f *Font) emFscaleY(v int16) float32    { return emFscale(v, f.YScale, f.faceUpem) }
+
+// the product is computed on 64 bits: v * scale does not fit an int32
+// as soon as the scale exceeds 2^16 (1024 px with 6 fractional bits)
+func emScale(v int16, scale, faceUpem int32) Position {
+	return Position(int64(v) * int64(scale) / int64(faceUpem))
+}
 
 func emScalef(v float32, scale, faceUpem int32) Position {
 	return roundf(v * float32(scale) / float32(faceUpem))
